@@ -150,14 +150,15 @@ class World:
 
     # -- file system snapshots ---------------------------------------------------
     def _snapshot_hook(self, sched):
-        if self.in_hook or not self.dests:
+        if self.in_hook:
             return
         self.in_hook = True
         try:
-            st = self._fs_classify()
-            if st != self.fs_state:
-                self.fs_state = st
-                self.emit('FsSnapshot', files=st)
+            if self.dests:
+                st = self._fs_classify()
+                if st != self.fs_state:
+                    self.fs_state = st
+                    self.emit('FsSnapshot', files=st)
             for x, fut in list(self.futures.items()):
                 try:
                     d = bool(fut.done())
@@ -261,7 +262,7 @@ class World:
             elif src == 'seekable':
                 fobj = SeekableSource(self, x, b'\xfe' * p0 + data, p0)
             else:
-                fobj = NonSeekableSource(self, x, data)
+                fobj = NonSeekableSource(self, x, data, t.get('src_reads'))
             info['call'] = lambda: self.manager.upload(
                 fobj, BUCKET, key, extra_args=extra or None, subscribers=subs)
         elif kind == 'download':
@@ -323,12 +324,25 @@ class World:
             raise
         except BaseException as e:
             self.results[x] = ('raise', e)
+            self._snapshot_hook(self.sched)
             self.emit('ResultEnd', x=x, outcome='raise', exc=exc_tag(e),
                       cls=exc_class(e), msg=str(e)[:80])
             return ('raise', e)
         self.results[x] = ('ok', r)
+        self._snapshot_hook(self.sched)
         self.emit('ResultEnd', x=x, outcome='ok')
         return ('ok', r)
+
+    def result_again(self, x):
+        fut = self.futures[x]
+        try:
+            fut.result()
+        except KeyboardInterrupt:
+            return
+        except BaseException as e:  # noqa
+            self.emit('ResultAgain', x=x, outcome='raise', exc=exc_tag(e))
+            return
+        self.emit('ResultAgain', x=x, outcome='ok')
 
     # -- final observation ------------------------------------------------------------
     def final_state(self):
@@ -423,7 +437,7 @@ class RecordingSubscriber:
             f = w.fault_due('on_queued', x=self.x, sub=self.idx)
             if f:
                 tag = f.get('tag', f'CBQ{self.x}')
-                w.emit('FaultInjected', on='on_queued', tag=tag)
+                w.emit('FaultInjected', on='on_queued', tag=tag, x=self.x)
                 raise InjectedError(tag)
         finally:
             w.emit('CbEnd', cb='queued', x=self.x, sub=self.idx)
@@ -432,18 +446,28 @@ class RecordingSubscriber:
         w = self.w
         w.emit('CbBegin', cb='progress', x=self.x, sub=self.idx,
                n=bytes_transferred)
+        w.sched.point('cb')
         try:
             f = w.fault_due('on_progress', x=self.x, sub=self.idx)
             if f:
                 tag = f.get('tag', f'CBP{self.x}')
-                w.emit('FaultInjected', on='on_progress', tag=tag)
+                w.emit('FaultInjected', on='on_progress', tag=tag, x=self.x)
                 raise InjectedError(tag)
         finally:
             w.emit('CbEnd', cb='progress', x=self.x, sub=self.idx)
 
     def on_done(self, future, **kwargs):
         w = self.w
-        w.emit('CbBegin', cb='done', x=self.x, sub=self.idx)
+        flag = bool(future.done())
+        st = ''
+        if self.opt.get('probe_result', True):
+            # result() must no longer block once on_done runs
+            try:
+                future.result()
+                st = 'success'
+            except BaseException:  # noqa
+                st = 'error'
+        w.emit('CbBegin', cb='done', x=self.x, sub=self.idx, flag=flag, st=st)
         w.sched.point('cb')
         try:
             for name in self.opt.get('reenter', ()):
@@ -490,7 +514,7 @@ class SeekableSource:
         f = w.fault_due('src_read', x=self.x)
         if f:
             tag = f.get('tag', f'SRC{self.x}')
-            w.emit('FaultInjected', on='src_read', tag=tag)
+            w.emit('FaultInjected', on='src_read', tag=tag, x=self.x)
             raise InjectedError(tag)
         pos = self._b.tell()
         d = self._b.read(n)
@@ -506,12 +530,17 @@ class SeekableSource:
     def tell(self):
         return self._b.tell()
 
+    def close(self):
+        self.w.emit('SrcClose', x=self.x)
+
 
 class NonSeekableSource:
-    def __init__(self, world, x, data):
+    def __init__(self, world, x, data, reads=None):
         self.w = world
         self.x = x
         self._b = io.BytesIO(data)
+        self._reads = list(reads or [])
+        self._ri = 0
 
     def readable(self):
         return True
@@ -522,9 +551,15 @@ class NonSeekableSource:
         f = w.fault_due('src_read', x=self.x)
         if f:
             tag = f.get('tag', f'SRC{self.x}')
-            w.emit('FaultInjected', on='src_read', tag=tag)
+            w.emit('FaultInjected', on='src_read', tag=tag, x=self.x)
             raise InjectedError(tag)
         pos = self._b.tell()
+        if self._reads and n is not None and n > 0:
+            # a pipe/socket-like stream: read(n) may return fewer than n
+            # bytes before EOF; read() without a size still drains to EOF
+            cap = self._reads[self._ri % len(self._reads)]
+            self._ri += 1
+            n = min(n, cap)
         d = self._b.read(n)
         w.emit('SrcRead', x=self.x, off=pos, len=len(d),
                req=(-1 if n is None else n))
@@ -556,7 +591,7 @@ class SeekableDest:
         f = w.fault_due('dst_write', x=self.x)
         if f:
             tag = f.get('tag', f'DST{self.x}')
-            w.emit('FaultInjected', on='dst_write', tag=tag)
+            w.emit('FaultInjected', on='dst_write', tag=tag, x=self.x)
             w.emit('DstWriteEnd', x=self.x, ok=False)
             raise InjectedOSError(tag)
         self._b.write(data)
@@ -582,7 +617,7 @@ class NonSeekableDest:
         f = w.fault_due('dst_write', x=self.x)
         if f:
             tag = f.get('tag', f'DST{self.x}')
-            w.emit('FaultInjected', on='dst_write', tag=tag)
+            w.emit('FaultInjected', on='dst_write', tag=tag, x=self.x)
             w.emit('DstWriteEnd', x=self.x, ok=False)
             raise InjectedOSError(tag)
         loc = fakes3.locate(w.xinfo[self.x]['data'], data)
@@ -614,7 +649,7 @@ class FileProxy:
         f = w.fault_due('fs_write', x=self.x)
         if f:
             tag = f.get('tag', f'FSW{self.x}')
-            w.emit('FaultInjected', on='fs_write', tag=tag)
+            w.emit('FaultInjected', on='fs_write', tag=tag, x=self.x)
             w.emit('FsWriteEnd', x=self.x, ok=False)
             raise InjectedOSError(tag)
         self._f.write(data)
@@ -643,7 +678,7 @@ class FileProxy:
             f = w.fault_due('fs_close', x=self.x)
             if f:
                 tag = f.get('tag', f'FSC{self.x}')
-                w.emit('FaultInjected', on='fs_close', tag=tag)
+                w.emit('FaultInjected', on='fs_close', tag=tag, x=self.x)
                 self._f.close()
                 raise InjectedOSError(tag)
             w.emit('FsClose', x=self.x)
@@ -675,7 +710,7 @@ class RecordingOSUtils(_utils.OSUtils):
             f = w.fault_due('fs_open', x=x)
             if f:
                 tag = f.get('tag', f'FSO{x}')
-                w.emit('FaultInjected', on='fs_open', tag=tag)
+                w.emit('FaultInjected', on='fs_open', tag=tag, x=x)
                 raise InjectedOSError(tag)
             w.emit('FsOpen', x=x, mode=mode,
                    temp=os.path.basename(filename) != f'dst{x}')
@@ -694,7 +729,7 @@ class RecordingOSUtils(_utils.OSUtils):
         f = w.fault_due('fs_rename', x=x)
         if f:
             tag = f.get('tag', f'FSR{x}')
-            w.emit('FaultInjected', on='fs_rename', tag=tag)
+            w.emit('FaultInjected', on='fs_rename', tag=tag, x=x)
             raise InjectedOSError(tag)
         w.emit('FsRenameBegin', x=x)
         super().rename_file(current_filename, new_filename)
